@@ -971,11 +971,15 @@ def _callable_iter_cells():
 
 
 def _plain_iteration_cells():
-    for n in range(0, 4):
-        def oracle(n=n):
-            src = _Src(_items(0, n))
-            return _observe(lambda: iter(src), [src], [])
-        yield Cell(f"{n} items", [("IT", 0)], {}, {0: n}, oracle)
+    for flavour in ("iterator", "collection"):
+        for n in range(0, 4):
+            def oracle(n=n):
+                src = _Src(_items(0, n))
+                return _observe(lambda: iter(src), [src], [])
+            c = Cell(f"{n} items" + (" of a collection that produces its items when asked (isinstance(x, Collection) holds)"
+                                     if flavour == "collection" else ""), [("IT", 0)], {}, {0: n}, oracle)
+            c.flavour = flavour
+            yield c
 
 
 def sync_wrapper_table(ctx, rid: str) -> None:
@@ -1201,6 +1205,7 @@ def _tables(ctx, rid: str, tools, kind: str, counter: str, fields=ALL, make_ops=
                 ops = ToolOps(ctx, u, cell.lengths, cell.items, cell.fns, cell.truths, cell.ranks)
                 resolver = make_resolver(ctx, u, ops, skip=("aiter", "iter", "borrow", "anext", "awaitify"), coroutines=True)
             ops.fault_at = fault_at
+            ops.flavour = getattr(cell, "flavour", "iterator")
             env = _bind(ctx, u, ops, cell)
             if env is None:
                 return "skip", None, None
@@ -1276,6 +1281,8 @@ def _tables(ctx, rid: str, tools, kind: str, counter: str, fields=ALL, make_ops=
                     # (exhausted) source once more before it finishes as well
                     construct = f"{name}: finishes without asking its exhausted source again where the stdlib tool asks once more"
                     early = True
+                    if "end-of-source detections" not in fields:
+                        continue  # (this projection compares the order of requests and results up to the end of the source only)
                 else:
                     early = False
                 if (early and not early_reported) or (not early and bad_other < 2):
